@@ -186,9 +186,9 @@ func (c *Ctx) TagDispatch(pkgs ...string) []core.Ob {
 		}
 		obs = append(obs, e)
 	}
-	if len(sws) < 6 {
+	if len(sws) < 2*len(pkgs) {
 		obs = append(obs, core.Ob{Rule: "T-DISPATCH", Key: "switch-count", Status: core.Violated, Armed: true,
-			Want: "the confirmed tag dispatchers are found (>= 6)", Got: fmt.Sprintf("%d found", len(sws))})
+			Want: fmt.Sprintf("the confirmed tag dispatchers are found (>= %d in %s)", 2*len(pkgs), strings.Join(pkgs, ",")), Got: fmt.Sprintf("%d found", len(sws))})
 	}
 	return obs
 }
@@ -454,12 +454,23 @@ func (c *Ctx) ReflKind() []core.Ob {
 						if v.Init != nil {
 							walk(v.Init, kinds)
 						}
+						listed := map[string]bool{}
+						for _, s := range v.Body.List {
+							for _, e := range s.(*ast.CaseClause).List {
+								if k, ok := reflectKindName(info, e); ok {
+									listed[k] = true
+								}
+							}
+						}
 						for _, s := range v.Body.List {
 							c2 := s.(*ast.CaseClause)
 							sub := map[string]bool{}
 							if c2.List == nil {
+								// default: the reaching kinds no other clause takes
 								for k := range kinds {
-									sub[k] = true
+									if !listed[k] {
+										sub[k] = true
+									}
 								}
 							}
 							for _, e := range c2.List {
